@@ -596,7 +596,16 @@ pub fn c04(rec: &mut Rec, rng: &mut Rng, thorough: bool) {
                 // (every third case: the header line in front of Content-Length ends in a bare CR — CR CR LF in the stream;
                 // the line still ends at its CRLF and the declaration that follows is seen)
                 let xa = if (n as usize + variant) % 3 == 0 { "X-A: b\r" } else { "X-A: b" };
-                let head = format!("{}PUT /x HTTP/1.1\r\n{}\r\nContent-Length: {}\r\nExpect: 100-continue\r\n\r\n", pre, xa, n).into_bytes();
+                // (other recognised headers around the declaration change nothing about the limit: Transfer-Encoding in
+                // particular does not exempt a request — the body is still read by Content-Length)
+                let (h_before, h_after) = match (n as usize / 2 + variant + l) % 6 {
+                    0 => ("Transfer-Encoding: chunked\r\n", ""),
+                    1 => ("", "Transfer-Encoding: chunked\r\n"),
+                    2 => ("Transfer-Encoding: identity\r\n", "Accept-Encoding: gzip\r\n"),
+                    3 => ("", "Content-Type: text/plain\r\nTransfer-Encoding: gzip, chunked\r\n"),
+                    _ => ("", ""),
+                };
+                let head = format!("{}PUT /x HTTP/1.1\r\n{}\r\n{}Content-Length: {}\r\n{}Expect: 100-continue\r\n\r\n", pre, xa, h_before, n, h_after).into_bytes();
                 // the head only: no body byte is offered
                 let cuts = gen::cuts(rng, &head, 4 + variant);
                 let mut last = String::new();
@@ -1101,6 +1110,12 @@ pub fn c11(rec: &mut Rec, rng: &mut Rng, thorough: bool) {
 
 pub fn c12(rec: &mut Rec, rng: &mut Rng, thorough: bool) {
     let n = if thorough { 12000 } else { 500 };
+    // run like a daemon whose stdin is closed: received descriptors then get the lowest free number, 0 included
+    // (nothing in the harness reads stdin); `Tokens::new` keeps its template above 2
+    // SAFETY: closing descriptor 0 of this process
+    unsafe {
+        libc::close(0);
+    }
     for i in 0..n {
         rec.case("descriptors");
         let (stream, _plans) = pipeline(rng, 4, i % 5 == 0);
@@ -1140,6 +1155,9 @@ pub fn c12(rec: &mut Rec, rng: &mut Rng, thorough: bool) {
             for t in &new_tokens {
                 let fd = *d.tokens.by_fd.iter().find(|(_, v)| *v == t).map(|(k, _)| k).unwrap();
                 all.push((*t, fd));
+                if fd == 0 {
+                    rec.count("fd:number-0");
+                }
             }
             pending.extend(new_tokens.iter().cloned());
             if rs.iter().any(|r| r != "ok") {
@@ -1243,8 +1261,15 @@ pub fn c13(rec: &mut Rec, rng: &mut Rng, thorough: bool) {
         rec.case("expect");
         let limit = *rng.pick(&[0usize, 1, 5, 100, 51200]);
         let mut d = ConnDriver::new(rec, limit);
-        let k = rng.range(1, 3);
+        let k = rng.range(1, 4);
         let mut stream_all = vec![];
+        // every fifth connection has already rejected a request (bad request line / bad header value)
+        if rng.chance(1, 5) {
+            let bad: &[u8] = if rng.chance(1, 2) { b"BOGUS /e HTTP/1.1\r\n\r\n" } else { b"PUT /e HTTP/1.1\r\nContent-Length: x\r\n\r\n" };
+            d.recv(rec, bad, 0);
+            d.popall(rec);
+            rec.count("continue:connection-rejected-before");
+        }
         for _ in 0..k {
             let with_expect = rng.chance(2, 3);
             let ev = if rng.chance(2, 3) { expect_vals[0] } else { *rng.pick(&expect_vals) };
@@ -1327,7 +1352,15 @@ pub fn c13(rec: &mut Rec, rng: &mut Rng, thorough: bool) {
                 if !last.starts_with("parse(SizeLimitExceeded") {
                     rec.oracle_fail("C13", "over-limit request not rejected at the end of its head", &d.log);
                 }
-                break;
+                // parsing restarts clean (C11): the NEXT request on this connection is asked for its body as usual
+                rec.count("continue:after-rejected-request");
+                d.popall(rec);
+                continue;
+            }
+            if last.starts_with("parse(") {
+                rec.count("continue:after-rejected-request");
+                d.popall(rec);
+                continue;
             }
             if last != "ok" {
                 break;
@@ -1382,7 +1415,8 @@ pub fn c14(rec: &mut Rec, rng: &mut Rng, thorough: bool) {
             o.expect_pct = 70;
         }
         let p = gen::valid_request(rng, &o);
-        let which = gen::CORRUPTIONS[i % gen::CORRUPTIONS.len()];
+        // (i / 3 * 2 + i % 3): the corrupted cases (i % 3 != 0) walk through ALL kinds whatever the table's length
+        let which = gen::CORRUPTIONS[(i / 3 * 2 + i % 3) % gen::CORRUPTIONS.len()];
         let mut bytes = match i % 3 {
             0 => p.bytes(),
             _ => gen::corrupt(rng, &p, which),
